@@ -133,3 +133,16 @@ impl Default for Version {
         Version::V1
     }
 }
+
+/// Verification re-exports of the framing types that the module keeps private
+/// (`--cfg litep2p_verif` only).
+#[cfg(litep2p_verif)]
+pub mod verif_decoders {
+    pub use super::{
+        length_delimited::{LengthDelimited, LengthDelimitedReader},
+        protocol::{webrtc_encode_multistream_message, MessageIO, MessageReader},
+    };
+
+    /// Largest frame the multistream-select framing accepts.
+    pub const MAX_FRAME_SIZE: usize = super::length_delimited::MAX_FRAME_SIZE as usize;
+}
